@@ -269,6 +269,13 @@ type msgSpec struct {
 
 func (m msgSpec) shp() string {
 	if m.shape == "" {
+		n := m.size - 23 - len(m.key)
+		if m.hdr {
+			n -= 4
+		}
+		if n == 0 { // no room for value bytes: message() then gives an empty, non-nil Value
+			return "ke"
+		}
 		return "kv"
 	}
 	return m.shape
@@ -302,6 +309,7 @@ type scenario struct {
 	jitterUs   int
 	wire       int // > 0: run over the real kafka.Transport against this many byte-level brokers
 	moves      []leaderMove
+	defBal     bool                     // Writer.Balancer left unset: the default round-robin (one goroutine: message j of the run goes to partition j mod n)
 	writeTO    time.Duration            // > 0: Writer.WriteTimeout
 	stallAt    int                      // wire: the broker stops reading in the middle of the n-th produce request to arrive (special "stallwrite")
 	linger     time.Duration            // > 0: timed run — the trace carries clock ticks and the model's linger bound (BatchTimeout + slack) applies
@@ -768,6 +776,28 @@ func (b *builder) stallWrite(i int) *scenario {
 	return sc
 }
 
+// defaultBalancer: Writer.Balancer left unset.  One goroutine writes synchronously, so the default round-robin balancer
+// sends the j-th message of the run to partition j mod n; the declared partitions say so.
+func (b *builder) defaultBalancer(i int) *scenario {
+	r := b.r
+	n := 2 + i%3
+	sc := &scenario{name: "defbal" + strconv.Itoa(i), bs: 1 + r.Intn(3), bb: 1 << 20, ma: 2, async: false, compl: i%2 == 0, wtopic: "t",
+		timeout: 2 * time.Millisecond, nparts: map[string]int{"t": n}, faults: map[tpKey][]fault{}, closeAt: -1, defBal: true}
+	var calls []callSpec
+	j := 0
+	for c := 0; c < 3+r.Intn(3); c++ {
+		b.nextC++
+		cs := callSpec{id: b.nextC}
+		for k := 0; k < 1+r.Intn(4); k++ {
+			cs.msgs = append(cs.msgs, b.mkMsg(40+r.Intn(20), "", j%n, false))
+			j++
+		}
+		calls = append(calls, cs)
+	}
+	sc.callers = [][]callSpec{calls}
+	return sc
+}
+
 // tinyTimeout: BatchTimeout of microseconds with BatchSize 2 and odd message counts, while every batch creation is
 // stalled inside the partition mutex: the linger timer of a batch expires while writeMessages fills and queues it and
 // opens the next batch, so the timer branch of awaitBatch runs for a batch that is no longer attached
@@ -989,6 +1019,7 @@ func run(sc *scenario, out *bufio.Writer) {
 	}
 	var cbmu sync.Mutex
 	var cbs []string
+	var where []string
 	w := &kafka.Writer{
 		Addr: kafka.TCP("fake:9092"), Topic: sc.wtopic, Transport: f,
 		Balancer: kafka.BalancerFunc(func(m kafka.Message, parts ...int) int {
@@ -997,6 +1028,9 @@ func run(sc *scenario, out *bufio.Writer) {
 		BatchSize: sc.bs, BatchBytes: sc.bb, BatchTimeout: sc.timeout, MaxAttempts: sc.ma,
 		WriteBackoffMin: 200 * time.Microsecond, WriteBackoffMax: time.Millisecond,
 		RequiredAcks: kafka.RequireOne, Async: sc.async,
+	}
+	if sc.defBal {
+		w.Balancer = nil
 	}
 	// non-default options that must reach the broker unchanged: acks (One / All; None is outside C01) and the codec
 	opt := len(sc.name)*7 + sc.bs + sc.ma + int(sc.bb%11)
@@ -1028,6 +1062,9 @@ func run(sc *scenario, out *bufio.Writer) {
 			cbmu.Lock()
 			for _, m := range msgs {
 				cbs = append(cbs, msgID(m.Key, m.Value)+" "+kafka.VerifErrCode(err))
+				if err == nil { // where the Writer says the message is: Topic / Partition / Offset as handed to Completion
+					where = append(where, fmt.Sprintf("%s:%s/%d@%d", msgID(m.Key, m.Value), m.Topic, m.Partition, m.Offset))
+				}
 			}
 			cbmu.Unlock()
 		}
@@ -1195,7 +1232,7 @@ func run(sc *scenario, out *bufio.Writer) {
 		}
 		sb.WriteString(" | ")
 		tmu.Lock()
-		sb.WriteString(renderEvents(evs, tickAt, sc.wire > 0))
+		sb.WriteString(renderEvents(evs, tickAt))
 		tmu.Unlock()
 		sb.WriteString("\t")
 		sort.Slice(results, func(i, j int) bool { return results[i].call < results[j].call })
@@ -1250,6 +1287,14 @@ func run(sc *scenario, out *bufio.Writer) {
 			shp = []string{"-"}
 		}
 		sb.WriteString(" | shapes " + strings.Join(shp, ";"))
+		cbmu.Lock()
+		wh := append([]string(nil), where...)
+		cbmu.Unlock()
+		sort.Strings(wh)
+		if len(wh) == 0 {
+			wh = []string{"-"}
+		}
+		sb.WriteString(" | where " + strings.Join(wh, ";"))
 		out.WriteString(sb.String())
 		out.WriteString("\n")
 		out.Flush()
@@ -1576,7 +1621,7 @@ func waitEvent(kind string, max time.Duration) bool {
 
 // renderEvents renames the recorder's object ids per kind to creation order (a freed object's address may be
 // reused by a later one: ids are bound at the creating event) and joins the events with ';'.
-func renderEvents(evs []kafka.VerifEvent, tickAt map[int]int64, wire bool) string {
+func renderEvents(evs []kafka.VerifEvent, tickAt map[int]int64) string {
 	pw, q, bt := map[string]string{}, map[string]string{}, map[string]string{}
 	ren := func(m map[string]string, pre, raw string, create bool) string {
 		if raw == "nil" {
@@ -1626,27 +1671,6 @@ func renderEvents(evs []kafka.VerifEvent, tickAt map[int]int64, wire bool) strin
 			a[0] = ren(q, "q", a[0], false)
 		}
 		parts = append(parts, e.Kind+" "+strings.Join(a, " "))
-	}
-	if wire {
-		// over the real Transport an attempt can end with an error the hook cannot name ("other": e.g. the connection's
-		// own i/o timeout racing the context deadline); whether isTemporary() holds for it is not visible in the
-		// trace.  When the Writer went on to retry the batch, the error is recorded as a temporary one.
-		for i, p := range parts {
-			f := strings.Fields(p)
-			if len(f) == 5 && f[0] == "PW.AttemptDone" && f[4] == "other" {
-				k, _ := strconv.Atoi(f[3])
-				want := "PW.Attempt " + f[1] + " " + f[2] + " " + strconv.Itoa(k+1)
-				for _, q := range parts[i+1:] {
-					if q == want {
-						parts[i] = strings.Join(f[:4], " ") + " othertmp"
-						break
-					}
-					if strings.HasPrefix(q, "PW.Attempt "+f[1]+" ") || strings.HasPrefix(q, "B.Complete "+f[1]+" "+f[2]+" ") {
-						break
-					}
-				}
-			}
-		}
 	}
 	return strings.Join(parts, ";")
 }
@@ -1701,6 +1725,9 @@ func main() {
 	}
 	for i := 0; i < 3+extra && failedScenarios < 3; i++ {
 		run(b.stallWrite(i), out)
+	}
+	for i := 0; i < 6*extra && failedScenarios < 3; i++ {
+		run(b.defaultBalancer(i), out)
 	}
 	for i := 0; i < 3+extra && failedScenarios < 3; i++ {
 		run(b.trickleFamily(i), out)
